@@ -79,7 +79,7 @@ def run(case):
         else:
             n = len(case["parts"][0]["lens"])
             exp = [np.concatenate([p[1][i] for p in parts]) for i in range(n)]
-            edt = exp[0].dtype if n and sum(len(e) for e in exp) else None
+            edt = np.result_type(*[np.dtype(s_["dtype"]) for s_ in case["parts"]])
             a = attempt(lambda: np.concatenate([p[0] for p in parts], axis=-1))
         if not a.ok:
             return violated("%s raised %r" % (desc, a), tags)
